@@ -56,10 +56,12 @@ type releaseAnalysis struct {
 	actions  map[*model.Ctx][]string
 	owner    map[*model.Ctx]string // teardown ctx -> owner node ("ROOT" for the SC's own teardown)
 	why      map[string]string
+	// conditional: resource node -> why a release action in the teardown was not counted
+	conditional map[string]string
 }
 
 func analyseRelease(m *model.Model, sc *model.SC) *releaseAnalysis {
-	ra := &releaseAnalysis{released: map[string]bool{}, edges: map[string][]string{}, actions: map[*model.Ctx][]string{}, owner: map[*model.Ctx]string{}, why: map[string]string{}}
+	ra := &releaseAnalysis{released: map[string]bool{}, edges: map[string][]string{}, actions: map[*model.Ctx][]string{}, owner: map[*model.Ctx]string{}, why: map[string]string{}, conditional: map[string]string{}}
 	info := func(p *packages.Package) *types.Info { return p.TypesInfo }
 	litOwner := map[*ast.FuncLit]string{}
 	for _, op := range sc.SubOps {
@@ -112,7 +114,8 @@ func analyseRelease(m *model.Model, sc *model.SC) *releaseAnalysis {
 			ra.owner[c] = resNode(sc.Pkg.TypesInfo, c.OwnerAV, c.OwnerExpr)
 		}
 	}
-	// release actions inside teardown contexts
+	// release actions inside teardown contexts; they count only when they execute on every
+	// path of the teardown (and of each closure on the way to them)
 	for _, op := range sc.SubOps {
 		t := teardownOf(op.Ctx)
 		if t == nil {
@@ -121,9 +124,14 @@ func analyseRelease(m *model.Model, sc *model.SC) *releaseAnalysis {
 		switch op.Method {
 		case "Unsubscribe", "Stop", "close":
 			n := resNode(info(op.Pkg), op.Recv, op.RecvExpr)
-			if n != "" {
-				ra.actions[t] = append(ra.actions[t], n)
+			if n == "" {
+				continue
 			}
+			if why := conditionalInTeardown(m, op); why != "" {
+				ra.conditional[n] = why
+				continue
+			}
+			ra.actions[t] = append(ra.actions[t], n)
 		}
 	}
 	// teardown values that are method values x.Unsubscribe
@@ -175,6 +183,48 @@ func analyseRelease(m *model.Model, sc *model.SC) *releaseAnalysis {
 	return ra
 }
 
+// conditionalInTeardown: the release call, or one of the calls on the inlining chain that
+// leads to it from the teardown's entry function, can be skipped by a path of its function
+// (early return, branch). Loops and deferred calls are accepted.
+func conditionalInTeardown(m *model.Model, op *model.SubOp) string {
+	nodes := []ast.Node{op.Call}
+	for i := len(op.Stack) - 1; i >= 0; i-- {
+		nodes = append(nodes, op.Stack[i])
+	}
+	for _, n := range nodes {
+		fn := innermostFunc(m, op.Pkg, n)
+		if fn == nil {
+			continue
+		}
+		// deferred calls always run
+		deferred := false
+		inLoop := false
+		for c := n; c != nil && c != fn; c = m.Parent(op.Pkg, c) {
+			switch m.Parent(op.Pkg, c).(type) {
+			case *ast.DeferStmt:
+				deferred = true
+			case *ast.ForStmt, *ast.RangeStmt:
+				inLoop = true
+			}
+		}
+		if deferred || inLoop {
+			continue
+		}
+		if !mustPass(funcBody(fn), n) {
+			return fmt.Sprintf("the call at %s is skipped on some path of its function (early return or branch)", m.Prog.Rel(n.Pos()))
+		}
+		// stop climbing once we reached the function that is the teardown's entry
+		if t := teardownOf(op.Ctx); t != nil {
+			if lit, ok := fn.(*ast.FuncLit); ok {
+				if tn, ok := t.Node.(*ast.ReturnStmt); ok && len(tn.Results) == 1 && ast.Unparen(tn.Results[0]) == ast.Expr(lit) {
+					break
+				}
+			}
+		}
+	}
+	return ""
+}
+
 func (ra *releaseAnalysis) mark(n, why string) {
 	if !ra.released[n] {
 		ra.released[n] = true
@@ -222,7 +272,11 @@ func ruleRelease() check.Rule {
 							c.OK(key, s.Pos, "exempt: %s", exemptSC)
 						}
 					default:
-						c.Report(armed, key, s.Pos, "the subscription returned by this %s is not released by the operator's teardown (not unsubscribed, not added to a subscription the teardown unsubscribes, not awaited): unsubscribing downstream leaves this source subscribed", s.Method)
+						extra := ""
+						for n, why := range ra.conditional {
+							extra += fmt.Sprintf("; a release of %s exists but %s", n, why)
+						}
+						c.Report(armed, key, s.Pos, "the subscription returned by this %s is not released by the operator's teardown on every path (not unsubscribed, not added to a subscription the teardown unsubscribes, not awaited)%s: unsubscribing downstream leaves this source subscribed", s.Method, extra)
 					}
 				}
 				// timers
@@ -744,14 +798,130 @@ func C03() *check.Property {
 		Title:    "Teardown runs exactly once; closed subscriptions hold nothing upstream",
 		Patterns: cat(CorePatterns, PluginPkgs, []string{PromPkg}, RatePkgs),
 		Scope:    []string{ro},
-		Rules:    []check.Rule{ruleRelease(), ruleSelfUnsubscribe(), ruleAddTeardown(), ruleFinalizerDiscipline()},
+		Rules:    []check.Rule{ruleRelease(), ruleSelfUnsubscribe(), ruleAddTeardown(), ruleFinalizerDiscipline(), ruleTeardownAllRun(), ruleStateLevel()},
 		Explanation: "Static ownership/typestate check. RELEASE builds, per subscribe closure, a resource graph (subscriptions returned by subscribe sites, composite subscriptions, slices of subscriptions, timers, goroutines with their stop channels) " +
 			"and proves that every acquisition reaches a node that the operator's teardown chain unsubscribes/stops/closes (teardown closures count only when the subscription they were Add()ed to is itself released), or is awaited. " +
 			"SELF-UNSUBSCRIBE, ADD-TEARDOWN and FINALIZER-DISCIPLINE check the three core mechanisms the chain relies on: a subscriber runs its finalizers after every terminal notification (outside the producer lock), the subscribe function's " +
 			"teardown is added to the subscriber, and subscriptionImpl runs each finalizer exactly once through a recovering wrapper outside its mutex and re-panics only afterwards.",
 		NotDecided:  "exactly-once under races beyond the guarded-by discipline (it follows from done being swapped under the mutex); the timing of goroutine quiescence; resources other than subscriptions, timers, goroutines and channels.",
 		Assumptions: []string{"sync.Mutex semantics", "upstream observables honour their own teardown (induction over the pipeline)"},
-		Floors:      map[string]int{"acquisitions": 150, "field_accesses": 8},
-		Controls:    map[string]string{"zz_verif_controls_c03.go": roControl(controlsC03)},
+		Floors:      map[string]int{"acquisitions": 150, "field_accesses": 8, "teardown_closures": 15},
+		Controls:    map[string]string{"zz_verif_controls_c03.go": roControl(controlsC03 + controlsC03b), "zz_verif_controls_c12.go": roControl(controlsC12)},
 	}
 }
+
+// TEARDOWN-ALL-RUN: inside one teardown function, a release that follows a call that can
+// panic is deferred.
+func ruleTeardownAllRun() check.Rule {
+	return check.Rule{
+		Name:        "TEARDOWN-ALL-RUN",
+		Doc:         "in every teardown closure of an operator, each release action (Unsubscribe of another subscription, timer Stop, channel close, a finalize callback) that comes after a call which can panic (Subscription.Unsubscribe re-raises the panics of the teardowns it ran; user callbacks) is deferred, so a panicking upstream teardown does not stop the remaining releases",
+		NeedControl: true,
+		Run: func(c *check.Ctx) {
+			for _, sc := range c.M.SCs {
+				armed := c.Armed(sc)
+				type act struct {
+					pos      int
+					node     ast.Node
+					what     string
+					canPanic bool
+					release  bool
+					deferred bool
+				}
+				byCtx := map[*model.Ctx][]act{}
+				for _, op := range sc.SubOps {
+					t := teardownOf(op.Ctx)
+					if t == nil || op.Ctx != t {
+						continue
+					}
+					switch op.Method {
+					case "Unsubscribe":
+						// the subscription of a pass-through site is the destination's own subscriber (or a wrapper
+						// linked to it, which the destination's finalizers close first): unsubscribing it from the
+						// operator's teardown is a no-op and cannot panic
+						canPanic := !(op.Recv != nil && op.Recv.Kind == model.AVSub && op.Recv.Site != nil && op.Recv.Site.PassThru)
+						if why := teardownPanicExempt[sc.String()+"/"+exprOr(op.RecvExpr, "")]; why != "" {
+							canPanic = false
+						}
+						byCtx[t] = append(byCtx[t], act{int(op.BasePos), op.Call, "Unsubscribe of " + exprOr(op.RecvExpr, "a subscription"), canPanic, true, op.InDefer})
+					case "Stop", "close":
+						byCtx[t] = append(byCtx[t], act{int(op.BasePos), op.Call, op.Method + " of " + exprOr(op.RecvExpr, "?"), false, true, op.InDefer})
+					}
+				}
+				for _, u := range sc.UserCalls {
+					t := teardownOf(u.Ctx)
+					if t == nil || u.Ctx != t {
+						continue
+					}
+					byCtx[t] = append(byCtx[t], act{int(u.BasePos), u.Call, "user callback " + u.Param.Name(), true, true, u.InDefer})
+				}
+				// notifications to other observers from the teardown (GroupBy completes its groups)
+				for _, e := range sc.Emits {
+					t := teardownOf(e.Ctx)
+					if t == nil || e.Ctx != t || e.ToDest {
+						continue
+					}
+					byCtx[t] = append(byCtx[t], act{int(e.BasePos), e.Node, "notification of " + recvName(e), false, true, e.InDefer})
+				}
+				n := 0
+				for t, acts := range byCtx {
+					_ = t
+					sortActs := acts
+					for i := 0; i < len(sortActs); i++ {
+						for j := i + 1; j < len(sortActs); j++ {
+							if sortActs[j].pos < sortActs[i].pos {
+								sortActs[i], sortActs[j] = sortActs[j], sortActs[i]
+							}
+						}
+					}
+					c.Inc("teardown_closures", 1)
+					var panicky *act
+					for i := range sortActs {
+						a := &sortActs[i]
+						if panicky != nil && a.release && !a.deferred && a.pos > panicky.pos {
+							n++
+							key := fmt.Sprintf("%s/teardown-release#%d", sc, n)
+							c.Report(armed, key, a.node.Pos(), "%s runs after %s, which can panic (it re-raises the panics of the teardowns it ran), and is not deferred: a panicking upstream teardown skips this release", a.what, panicky.what)
+						}
+						if a.canPanic && !a.deferred && panicky == nil {
+							panicky = a
+						}
+					}
+				}
+				if n == 0 && armed && len(byCtx) > 0 {
+					c.OK(sc.String()+"/teardown-all-run", sc.Lit.Pos(), "every release that follows a call which can panic is deferred (or there is at most one such call, last)")
+				}
+			}
+		},
+	}
+}
+
+// teardownPanicExempt: Unsubscribe calls in teardowns that cannot panic for a reason the
+// structure does not show; one construct each.
+var teardownPanicExempt = map[string]string{
+	"ro.ZipAll/outerSub": "the outer subscription has completed (and run its teardowns) before any inner subscription exists; while it is still open there is nothing else to release",
+}
+
+func exprOr(e ast.Expr, alt string) string {
+	if e == nil {
+		return alt
+	}
+	return types.ExprString(e)
+}
+
+const controlsC03b = `
+func verifControlTeardownSequence[T any](other Observable[T]) func(Observable[T]) Observable[T] {
+	return func(source Observable[T]) Observable[T] {
+		return NewObservableWithContext(func(subscriberCtx context.Context, destination Observer[T]) Teardown {
+			a := source.SubscribeWithContext(subscriberCtx, NewObserverWithContext(
+				destination.NextWithContext, destination.ErrorWithContext, destination.CompleteWithContext))
+			b := other.SubscribeWithContext(subscriberCtx, NewObserverWithContext(
+				destination.NextWithContext, destination.ErrorWithContext, func(ctx context.Context) {}))
+			return func() {
+				a.Unsubscribe()
+				b.Unsubscribe()
+			}
+		})
+	}
+}
+`
